@@ -3,6 +3,8 @@ pub mod aead;
 pub mod alloc_track;
 pub mod core;
 pub mod models;
+pub mod osobs;
+pub mod protmodel;
 pub mod props;
 pub mod sodium;
 
